@@ -107,10 +107,17 @@ package buffer
 // error handling buffer itself (its results go to variables it captured).
 //@ iface ehAttempt.call
 //@   modifies nothing
+// ehRestarts(b): number of whole-object attempts started through
+// tryRepeatedly. Only conversions whose result can be thrown away and redone
+// (ReadAt, ToProto, ToByteSlice) may restart; a stream that has already
+// delivered bytes to its consumer has to be resumed at the right offset.
+//@ ghost ehRestarts(ref) int
 //@ func (*casErrorHandlingBuffer).tryRepeatedly
 //@   opt funcparam f=ehAttempt
 //@   requires b.errorHandler != nil && b.base != nil && f != nil
-//@   modifies ehErrors(b.errorHandler), ehLast(b.errorHandler), ehDone(b.errorHandler)
+//@   modifies ehErrors(b.errorHandler), ehLast(b.errorHandler), ehDone(b.errorHandler), ehRestarts(b)
+//@   exitghost ehRestarts(b) := old(ehRestarts(b)) + 1
+//@   ensures ehRestarts(b) == old(ehRestarts(b)) + 1
 //@   ensures [handler-finished-once] ehDone(b.errorHandler) == old(ehDone(b.errorHandler)) + 1
 //@   ensures [handlers-error-is-reported] result != nil && result != io.EOF ==> result == ehLast(b.errorHandler)
 //@         && ehErrors(b.errorHandler) > old(ehErrors(b.errorHandler))
@@ -145,3 +152,12 @@ package buffer
 //@   requires ehrWF(r)
 //@   ensures [handler-finished-once] ehDone(r.errorHandler) == old(ehDone(r.errorHandler)) + 1
 //@   ensures [stream-closed] crClosed(r.r) == 1
+
+// Writing into a writer cannot be redone: IntoWriter goes through the resuming,
+// validating chunk reader and never restarts from the beginning.
+//@ func (*casErrorHandlingBuffer).toValidatedChunkReader
+//@   requires b.errorHandler != nil && b.base != nil && b.source.dataIntegrityCallback != nil
+//@   ensures result != nil && ehRestarts(b) == old(ehRestarts(b))
+//@ func (*casErrorHandlingBuffer).IntoWriter
+//@   requires b.errorHandler != nil && b.base != nil && b.source.dataIntegrityCallback != nil && w != nil
+//@   ensures [resumed-never-restarted] ehRestarts(b) == old(ehRestarts(b))
